@@ -62,10 +62,16 @@ def strategy_(draw, tier):
     start = draw(st.sampled_from([0, 0, 6, 95, 996]))
     b = gen_graph._Builder(draw, rnd, [draw(st.sampled_from(["s", "s", "", "b"])), draw(st.sampled_from(["utg", "n", "s0", "b"]))], start, 9)
     b.cycles = draw(st.booleans())
+    b.tips = draw(st.integers(0, 2)) == 0
     nchrom = draw(st.integers(1, 3))
     names = draw(st.permutations(["chr1", "chr2", "chrX", "chr10_alt", "chr1.mat", "chr1.pat"]))[:nchrom]
     for name in names:
-        b.chain(name, draw(elements()))
+        c = b.chain(name, draw(elements()))
+        if len(c["nodes"]) == 1 and draw(st.booleans()):
+            # a one-segment chromosome with a link onto itself (circular chrM, tandem repeat, hairpin)
+            n0 = c["nodes"][0]
+            o1, o2 = draw(st.sampled_from([("+", "+"), ("-", "-"), ("+", "-"), ("-", "+")]))
+            b.links.append([n0, o1, n0, o2])
     b.fix_majority()
     g = {"nodes": b.nodes, "links": b.links}
     if draw(st.integers(0, 3)) == 0:
